@@ -411,7 +411,7 @@ static void fam_reuse(void) {
 					cur_f = f; cur_param = SP[sp][1]; cur_x = B[j]; cur_n = BL[j];
 					int r1 = int_run(f, enc, SP[sp][0], A[i], AL[i], t, &WHOLE, &nc, 0, 0);
 					int r2 = int_run(f, enc, SP[sp][1], B[j], BL[j], o, &WHOLE, &nc, 0, 0);
-					n_evals++;
+					n_evals++; if (BL[j] && memcmp(fresh[j][enc], B[j], BL[j])) { n_nontrivial++; n_distinct++; }
 					if (r1 || r2 || memcmp(o, fresh[j][enc], BL[j])) {
 						char ha[20]; h_hex(ha, A[i], AL[i], 8);
 						report("reuse-after-other-buffer", f, enc ? "enc" : "dec", SP[sp][1], B[j], BL[j], "coder first ran A=%s (start 0x%x) to the end, re-init, then this input: result differs from a fresh coder", ha, SP[sp][0]);
@@ -422,7 +422,6 @@ static void fam_reuse(void) {
 			if (h_expired()) return;
 		}
 	}
-	n_distinct += 0;
 	// every filter: A fed partially (every prefix length k, output window 0 / 1 / all), abandoned, re-init with the same or another
 	// start offset, then B in one call
 	static const uint8_t PAT[6][12] = {
@@ -581,6 +580,7 @@ static void fam_multiblock(void) {
 		for (int b = 0; b < nb; b++) {
 			size_t want_len = mt ? (off + n1 <= n ? n1 : n - off) : bl[b];
 			memcpy(want, plain + off, want_len); ref_apply(f, 1, param, want, want_len);
+			if (b == 1 && memcmp(want, plain + off, want_len)) { n_nontrivial++; n_distinct++; }	// the second Block is really transformed
 			if (lens[b] != want_len || memcmp(pay + off, want, want_len)) { okb = 0;
 				report("multiblock:block-differs-from-reference", f, "enc", param, plain + off, want_len, "Block %d of %d (%s): filtered bytes are not the reference transformation of this Block restarted at the start offset", b + 1, nb, mt ? "mt" : "full-flush"); break; }
 			off += want_len;
